@@ -218,17 +218,23 @@ pub async fn run_net_scenario(sc: &Value, workdir: &str) -> Vec<Value> {
     let base_tasks = alive_tasks();
     out.push(json!({"ev":"reset","scen":sc.get("scen").cloned().unwrap_or(json!(0)),"sock":stype,"tag":sc.get("tag").cloned().unwrap_or(json!("")),"fds":base_fds,"tasks":base_tasks}));
     let mut sock: Option<AnySock> = Some(AnySock::new(&stype, None));
-    let mut monitor = sock.as_mut().map(|s| match s {
-        AnySock::Req(x) => x.monitor(),
-        AnySock::Rep(x) => x.monitor(),
-        AnySock::Dealer(x) => x.monitor(),
-        AnySock::Router(x) => x.monitor(),
-        AnySock::Push(x) => x.monitor(),
-        AnySock::Pull(x) => x.monitor(),
-        AnySock::Pub(x) => x.monitor(),
-        AnySock::Sub(x) => x.monitor(),
-        AnySock::XPub(x) => x.monitor(),
-    });
+    macro_rules! new_monitor {
+        () => {
+            sock.as_mut().map(|s| match s {
+                AnySock::Req(x) => x.monitor(),
+                AnySock::Rep(x) => x.monitor(),
+                AnySock::Dealer(x) => x.monitor(),
+                AnySock::Router(x) => x.monitor(),
+                AnySock::Push(x) => x.monitor(),
+                AnySock::Pull(x) => x.monitor(),
+                AnySock::Pub(x) => x.monitor(),
+                AnySock::Sub(x) => x.monitor(),
+                AnySock::XPub(x) => x.monitor(),
+            })
+        };
+    }
+    // "monitor_at": "start" (default) | "later" (only by an install_monitor op: after bind, or replacing an earlier one)
+    let mut monitor = if sc.get("monitor_at").and_then(|v| v.as_str()) == Some("later") { None } else { new_monitor!() };
     let mut names: BTreeMap<String, String> = BTreeMap::new(); // name -> resolved endpoint text
     let mut clients: BTreeMap<i64, Client> = BTreeMap::new();
     let mut servers: BTreeMap<String, (TcpListener, Vec<TcpStream>)> = BTreeMap::new();
@@ -692,6 +698,12 @@ pub async fn run_net_scenario(sc: &Value, workdir: &str) -> Vec<Value> {
                     n = fd_count();
                 }
                 out.push(json!({"ev":"fds","open":n,"base":base_fds,"held_by_harness":clients.len() + servers.len(),"extra": n.saturating_sub(allowed)}));
+            }
+            "install_monitor" => {
+                // the application asks for the monitor stream now (again): the events of everything that happens from
+                // now on, on every endpoint bound before or after, must arrive on THIS stream
+                monitor = new_monitor!();
+                out.push(json!({"ev":"install_monitor"}));
             }
             "monitor" => {
                 let mut kinds: Vec<String> = vec![];
